@@ -180,7 +180,11 @@ class Engine:
     def project(self, v, proj):
         for e in proj:
             if e[0] == 'f':
-                if v[0] == 'agg' and e[1] < len(v[3]):
+                while v[0] == 't' and v[1] == 'with' and v[2][1] != e[1]:
+                    v = v[2][0]
+                if v[0] == 't' and v[1] == 'with':
+                    v = v[2][3]
+                elif v[0] == 'agg' and e[1] < len(v[3]):
                     v = v[3][e[1]]
                 elif v[0] == 'ref':
                     pass  # pointer wrappers (Box / Unique / NonNull): same pointer
@@ -204,6 +208,11 @@ class Engine:
                 pv = st.store[key]
                 rest = proj[n:]
                 nv = self.update(pv, rest, v)
+                if nv is not None and nv[0] == 't' and nv[1] == 'with':
+                    # the whole value reflects the change; the per-field entry is kept as well (the models read those)
+                    if base[0] == 'L':
+                        st.store[key] = nv
+                    break
                 if nv is not None:
                     st.store[key] = nv
                     return
@@ -225,6 +234,13 @@ class Engine:
             return ('agg', pv[1], pv[2], tuple(f))
         if pv[0] == 'agg' and e[0] == 'd':
             return self.update(pv, rest[1:], v)
+        if e[0] == 'f' and pv[0] != 'ref':
+            # a field of a value that is not a known aggregate (the result of an opaque call ...) is overwritten: the whole
+            # value becomes `pv with field := v`, so that a later read of the whole value sees the change
+            inner = self.update(self.project(pv, (e,)), rest[1:], v)
+            if inner is None:
+                return None
+            return T('with', pv, e[1], e[2], inner)
         return None
 
     # ------------------------------------------------------------ constants
